@@ -374,6 +374,37 @@ def check_sum_over_parts(rule, db, cfgname, qn, nparams, ptypes, part_call_args,
             probs.append("the accumulator does not start at 0")
         elif not so["returned"]:
             probs.append("the accumulated value is not what is returned")
+    # the argument the parts see is the argument of the call: a parameter that is re-assigned before it is passed on is
+    # compared with its original value at the ends and in the middle of [0, beta] (imaginary time); a difference there is a
+    # counterexample, agreement at the three points proves nothing and leaves the instance undecided
+    for p_ in g.params:
+        if ctx.mut.get(p_["d"]):
+            from pv.symenv import env_at, value_key
+            F = Formula()
+            pk_ = ("param", p_["d"], p_["n"])
+            t_ = F.name_atom(pk_, p_["n"])
+            b_ = F.name_atom(fld("Pomerol::Thermal::beta"), "beta")
+            verdict = None
+            if so["status"] == "ok" and "double" in (p_.get("t") or ""):
+                envs = env_at(g, ctx)
+                args_ = [a for a in (g.nodes[so["term"]].get("args") or [])]
+                for a in args_:
+                    if ctx.key(a, inline=False) == pk_ or key_contains(ctx.key(a, inline=False), lambda y: y == pk_):
+                        try:
+                            e_ = F.conv(value_key(g, ctx, envs, a, so["acc"]))
+                        except AnalysisBroken:
+                            continue
+                        bp = sp.Symbol("beta_", positive=True)
+                        for pt, nm in ((sp.Integer(0), "0"), (bp / 2, "beta/2"), (bp, "beta")):
+                            v = sp.simplify(e_.subs({b_: bp}).subs({t_: pt}))
+                            if v.free_symbols <= {bp} and sp.simplify(v - pt) != 0:
+                                verdict = "the parts are evaluated at %s = %s when the function is called with %s = %s (the argument is re-assigned to %s before it is passed on): the value at the end of the interval [0, beta] is that of another point" % (
+                                    p_["n"], v.subs({bp: sp.Symbol("beta")}), p_["n"], nm, e_)
+                                break
+            if verdict:
+                probs.append(verdict)
+            else:
+                raise AnalysisBroken("%s: the argument %s is modified before it is passed to the parts (transformation not analysed)" % (qn, p_["n"]))
     # vanishing: return 0 exactly under Vanishing
     van = fld(cls + "::Vanishing")
     for r, m in g.walk(g.body):
